@@ -317,7 +317,7 @@ def mutate(rng, L, root, kind=None):
             return {'m': kind, 'p': p}
     elif kind in ('stray', 'stray_dir', 'fifo'):
         d = rng.choice(L.dirs)
-        name = rng.choice(['stray', 'a b2', 'new\\file', '.stray']) if kind != 'stray_dir' else 'newdir'
+        name = rng.choice(['stray', 'a b2', 'new\\file', '.stray', 'Manifest', 'Manifest.gz', 'Manifest.old']) if kind != 'stray_dir' else 'newdir'
         dp = os.path.join(root, d)
         if not os.path.isdir(dp):
             return None
